@@ -72,7 +72,6 @@ void harness(void)
 #ifdef U_COUNT_DOWN
   ptrdiff_t update = nondet_ptrdiff();
   g_share = update;
-  long w0 = g_waiters;
   count_down(&s, update);
   if (lin_new > 0) VX_REACH("not_last");
   if (lin_new == 0) VX_REACH("opened");
